@@ -30,3 +30,15 @@ package compound
 //@ ensures[C03] consumed(c) == len(c)
 //@ use nlast_hold(res(MacdRsiStrategy_Compute), len(res(MacdRsiStrategy_Compute)) - len(arg(ActionsToAnnotations, 0, 0)), len(res(MacdRsiStrategy_Compute)) - len(arg(ActionsToAnnotations, 0, 0)))
 //@ use nlast_skip(res(MacdRsiStrategy_Compute), arg(ActionsToAnnotations, 0, 0), len(res(MacdRsiStrategy_Compute)) - len(arg(ActionsToAnnotations, 0, 0)))
+
+// ---- generated constructor contracts (govc genctor; do not edit by hand) ----
+// what each New* function returns, read off its literal: fresh, pairwise separate sub-objects, fields equal to the
+// arguments / constants they are initialised with (transitively through nested constructors); proved, not assumed
+//@ func NewMacdRsiStrategy
+//@ ensures[C06] "fresh-and-separate-objects" fresh(result) && fresh(result.MacdStrategy) && fresh(result.MacdStrategy.Macd) && fresh(result.MacdStrategy.Macd.Ema1) && fresh(result.MacdStrategy.Macd.Ema2) && fresh(result.MacdStrategy.Macd.Ema3) && fresh(result.RsiStrategy) && fresh(result.RsiStrategy.Rsi) && fresh(result.RsiStrategy.Rsi.Rma) && distinct(result.MacdStrategy.Macd.Ema1, result.MacdStrategy.Macd.Ema2, result.MacdStrategy.Macd.Ema3)
+//@ ensures[C06] "configured-as-given" result.MacdStrategy.Macd.Ema1.Period == 12 && result.MacdStrategy.Macd.Ema1.Smoothing == 2 && result.MacdStrategy.Macd.Ema2.Period == 26 && result.MacdStrategy.Macd.Ema2.Smoothing == 2 && result.MacdStrategy.Macd.Ema3.Period == 9 && result.MacdStrategy.Macd.Ema3.Smoothing == 2 && result.RsiStrategy.BuyAt == 30 && result.RsiStrategy.Rsi.Rma.Period == 14 && result.RsiStrategy.SellAt == 70
+
+//@ func NewMacdRsiStrategyWith
+//@ ensures[C06] "fresh-and-separate-objects" fresh(result) && fresh(result.MacdStrategy) && fresh(result.MacdStrategy.Macd) && fresh(result.MacdStrategy.Macd.Ema1) && fresh(result.MacdStrategy.Macd.Ema2) && fresh(result.MacdStrategy.Macd.Ema3) && fresh(result.RsiStrategy) && fresh(result.RsiStrategy.Rsi) && fresh(result.RsiStrategy.Rsi.Rma) && distinct(result.MacdStrategy.Macd.Ema1, result.MacdStrategy.Macd.Ema2, result.MacdStrategy.Macd.Ema3)
+//@ ensures[C06] "configured-as-given" result.MacdStrategy.Macd.Ema1.Period == 12 && result.MacdStrategy.Macd.Ema1.Smoothing == 2 && result.MacdStrategy.Macd.Ema2.Period == 26 && result.MacdStrategy.Macd.Ema2.Smoothing == 2 && result.MacdStrategy.Macd.Ema3.Period == 9 && result.MacdStrategy.Macd.Ema3.Smoothing == 2 && result.RsiStrategy.BuyAt == buyAt && result.RsiStrategy.Rsi.Rma.Period == 14 && result.RsiStrategy.SellAt == sellAt
+// ---- end of generated constructor contracts ----
